@@ -23,6 +23,7 @@ from liquid2.ast import Partial
 from liquid2.ast import PartialScope
 from liquid2.builtin import Identifier
 from liquid2.builtin import StringLiteral
+from liquid2.builtin import identifier_str
 from liquid2.builtin import parse_string_or_identifier
 from liquid2.exceptions import LiquidSyntaxError
 from liquid2.exceptions import RequiredBlockError
@@ -162,10 +163,11 @@ class BlockNode(Node):
     def __str__(self) -> str:
         assert isinstance(self.token, TagToken)
         required = " required" if self.required else ""
+        name = identifier_str(self.name)
         return (
-            f"{{%{self.token.wc[0]} block {self.name}{required} {self.token.wc[1]}%}}"
+            f"{{%{self.token.wc[0]} block {name}{required} {self.token.wc[1]}%}}"
             f"{self.block}"
-            f"{{%{self.end_tag_token.wc[0]} endblock {self.name} "
+            f"{{%{self.end_tag_token.wc[0]} endblock {name} "
             f"{self.end_tag_token.wc[1]}%}}"
         )
 
